@@ -81,6 +81,25 @@ fn main() {
         }
         return;
     }
+    if a[1] == "--pow" {
+        // replay --pow <fr|fq> <a hex> <k hex>: a^k through the public pow; --pow gt "" <k hex>: Gt::pow vs square-and-multiply
+        use sm9_core::{pairing, Fr, Fq, Group, Gt, G1, G2};
+        let bytes = |h: &String| { let mut b = [0u8; 32]; for i in 0..32 { b[i] = u8::from_str_radix(&h[2 * i..2 * i + 2], 16).expect("hex"); } b };
+        let hex = |b: &[u8]| b.iter().map(|x| format!("{:02x}", x)).collect::<String>();
+        match a[2].as_str() {
+            "fr" => println!("{}", hex(&Fr::from_slice(&bytes(&a[3])).unwrap().pow(Fr::from_slice(&bytes(&a[4])).unwrap()).to_slice())),
+            "fq" => println!("{}", hex(&Fq::from_slice(&bytes(&a[3])).unwrap().pow(Fq::from_slice(&bytes(&a[4])).unwrap()).to_slice())),
+            _ => {
+                let kb = bytes(&a[4]);
+                let g = pairing(G1::one(), G2::one());
+                let got = g.pow(Fr::from_slice(&kb).unwrap());
+                let mut want = Gt::one();
+                for byte in kb.iter() { for i in (0..8).rev() { want = want * want; if (byte >> i) & 1 == 1 { want = want * g; } } }
+                if got == want { println!("OK"); } else { println!("MISMATCH Gt::pow differs from square-and-multiply with Gt::mul"); }
+            }
+        }
+        return;
+    }
     if a[1] == "--smul" {
         // replay --smul <g1|g2> <mode a|j> <k hex64>: P * k and k * P for P = 3*G in the given representation;
         // prints the affine coordinates of the result (or INF)
